@@ -622,10 +622,12 @@ func (w *W) c19Try(st *c19State, g string, blob []byte) {
 		}
 		var out *simdjson.ParsedJson
 		var derr error
+		armCall()
 		perr := walk.Guard(func() error {
 			out, derr = st.ser.Deserialize(blob, dst)
 			return nil
 		})
+		disarmCall()
 		w.Eval(1)
 		if perr != nil {
 			w.Violation("C19/Deserialize-panic/"+panicKey(perr), fmt.Sprintf("Deserialize panicked (dst %s): %v; blob=%s from %s", []string{"nil", "reused"}[variant], perr, q(blob), g), cs)
@@ -645,7 +647,9 @@ func (w *W) c19Try(st *c19State, g string, blob []byte) {
 		w.Count("returned_result", 1)
 		past = true
 		memArmed.Store(true)
+		armCall()
 		err := sweepResult(out)
+		disarmCall()
 		memArmed.Store(false)
 		if err != nil {
 			w.Violation("C19/traverse-panic/"+panicKey(unwrapPanic(err)), fmt.Sprintf("reading a result Deserialize returned panicked: %v; blob=%s from %s", err, q(blob), g), cs)
@@ -797,6 +801,28 @@ func runC19(w *W) {
 			}
 			return 1
 		}
+		tagVals := func(t byte) int {
+			switch t {
+			case '"', 'e':
+				return 16
+			case 'l', 'u', 'd', '{', '[', 'r':
+				return 8
+			}
+			return 0
+		}
+		valsOf := func(ts []byte) int {
+			n := 0
+			for _, t := range ts {
+				n += tagVals(t)
+			}
+			return n
+		}
+		clipVals := func(n int) []byte {
+			if n > len(vals) {
+				n = len(vals)
+			}
+			return append([]byte{}, vals[:n]...)
+		}
 		used := 0
 		for i := 0; i <= len(tags); i++ {
 			if i > 0 {
@@ -818,6 +844,12 @@ func runC19(w *W) {
 					}
 					m.secSize[2] = uint64(len(m.plain[2]))
 					w.c19Try(st, "nop-tail:"+s.name, m.build())
+					// the same with the value stream cut to what the remaining tags consume
+					// (left-over values are rejected before anything else is looked at)
+					m = m.clone()
+					m.plain[3] = clipVals(valsOf(tags[:i]) + tagVals(t))
+					m.secSize[3] = uint64(len(m.plain[3]))
+					w.c19Try(st, "nop-tail-vals:"+s.name, m.build())
 				}
 			}
 			// a span of tags replaced by a nop run of the same (or one off) word count
@@ -837,6 +869,13 @@ func runC19(w *W) {
 					m.plain[2] = append(append(append([]byte{}, tags[:i]...), bytes.Repeat([]byte{'N'}, L)...), tags[i+span:]...)
 					m.secSize[2] = uint64(len(m.plain[2]))
 					w.c19Try(st, "nop-span:"+s.name, m.build())
+					m = m.clone()
+					a, b := valsOf(tags[:i]), valsOf(tags[:i+span])
+					if b <= len(vals) {
+						m.plain[3] = append(clipVals(a), vals[b:]...)
+						m.secSize[3] = uint64(len(m.plain[3]))
+						w.c19Try(st, "nop-span-vals:"+s.name, m.build())
+					}
 				}
 			}
 		}
